@@ -215,6 +215,14 @@ func compareWithReference(r *fw.R, id string, ctxKey string, o *readOutcome, ref
 			break
 		}
 	}
+	if term.Kind == "fail" && term.Class == wire.VioClosePay {
+		// a Close frame whose payload is malformed (one byte, or a status code that may not appear on the wire) is
+		// a protocol violation to be rejected: it is not the peer's close, and is not reported as one
+		var ce websocket.CloseError
+		if errors.As(o.Err, &ce) {
+			r.Violate(id+"/malformed-close-accepted-as-close", fmt.Sprintf("%s: frame %d is a Close frame with a malformed payload, yet the read reported the peer's close: %v", ctxKey, term.Frame, o.Err), witness())
+		}
+	}
 	if term.Kind == "close" && !term.InMessage {
 		// (a Close frame in the middle of a message need not surface as a
 		// CloseError: the properties only speak of closes at a message boundary)
